@@ -1,5 +1,7 @@
+pub mod align;
 pub mod backends;
 pub mod chacha_guts;
+pub mod conc;
 pub mod chacha_stream;
 pub mod hashes;
 pub mod ppvnull;
@@ -25,6 +27,8 @@ pub fn run(ctx: &mut Ctx) -> bool {
         "C12" => vecs::run_c12(ctx),
         "C13" => vecs::run_c13(ctx),
         "C03" => backends::run_c03(ctx),
+        "C16" => align::run_c16(ctx),
+        "C18" => conc::run_c18(ctx),
         "C11" => chacha_stream::run_c11(ctx),
         "C14" => chacha_guts::run_c14(ctx),
         "C15" => chacha_guts::run_c15(ctx),
